@@ -129,17 +129,20 @@ Proof.
     + eapply MI_ext; [exact M|]. intros b. rewrite refs_app. reflexivity.
     + intros j rj Hj. destruct (lt_dec j (length (pool w))) as [Hlt|Hge].
       * rewrite nth_error_app1 in Hj by exact Hlt. destruct E as (E1 & _). rewrite E1.
-        eapply handle_ok_frame; [apply (WH j); exact Hj|exact F|]. intros b _. exact I.
+        eapply handle_ok_frame; [apply (WH j); exact Hj|exact F|].
+        intros b Hb. pose proof (refs_ge (pool w) j (Some rj) b Hj) as G. cbn [slot_names] in G. rewrite Hb in G. exact G.
       * rewrite nth_error_app2 in Hj by lia. destruct (j - length (pool w))%nat as [|n]; cbn [nth_error] in Hj.
         -- injection Hj as <-. exact H.
         -- destruct n; discriminate.
     + destruct E as (-> & _). exact WS.
   - intros j rj Hj. destruct E as (E1 & _). split.
-    + eapply text_of_frame; eauto. intros; exact I.
-    + eapply cap_of_frame; eauto. intros; exact I.
+    + eapply text_of_frame; eauto.
+      intros b Hb. pose proof (refs_ge (pool w) j (Some rj) b Hj) as G. cbn [slot_names] in G. rewrite Hb in G. exact G.
+    + eapply cap_of_frame; eauto.
+      intros b Hb. pose proof (refs_ge (pool w) j (Some rj) b Hj) as G. cbn [slot_names] in G. rewrite Hb in G. exact G.
 Qed.
 Lemma wf_append_none w m' :
-  WF w -> same_env (wmem w) m' -> MI (heap m') (refs (pool w)) -> frame (heap (wmem w)) (heap m') (fun _ => True) ->
+  WF w -> same_env (wmem w) m' -> MI (heap m') (refs (pool w)) -> frame (heap (wmem w)) (heap m') (fun b => 1 <= refs (pool w) b) ->
   WF (append_slot w m' None)
   /\ (forall j rj, nth_error (pool w) j = Some (Some rj) ->
         text_of m' rj = text_of (wmem w) rj /\ cap_of m' rj = cap_of (wmem w) rj).
@@ -149,14 +152,17 @@ Proof.
     + eapply MI_ext; [exact M|]. intros b. rewrite refs_app. cbn [slot_names]. lia.
     + intros j rj Hj. destruct (lt_dec j (length (pool w))) as [Hlt|Hge].
       * rewrite nth_error_app1 in Hj by exact Hlt. destruct E as (E1 & _). rewrite E1.
-        eapply handle_ok_frame; [apply (WH j); exact Hj|exact F|]. intros b _. exact I.
+        eapply handle_ok_frame; [apply (WH j); exact Hj|exact F|].
+        intros b Hb. pose proof (refs_ge (pool w) j (Some rj) b Hj) as G. cbn [slot_names] in G. rewrite Hb in G. exact G.
       * rewrite nth_error_app2 in Hj by lia. destruct (j - length (pool w))%nat as [|n]; cbn [nth_error] in Hj.
         -- discriminate.
         -- destruct n; discriminate.
     + destruct E as (-> & _). exact WS.
   - intros j rj Hj. destruct E as (E1 & _). split.
-    + eapply text_of_frame; eauto. intros; exact I.
-    + eapply cap_of_frame; eauto. intros; exact I.
+    + eapply text_of_frame; eauto.
+      intros b Hb. pose proof (refs_ge (pool w) j (Some rj) b Hj) as G. cbn [slot_names] in G. rewrite Hb in G. exact G.
+    + eapply cap_of_frame; eauto.
+      intros b Hb. pose proof (refs_ge (pool w) j (Some rj) b Hj) as G. cbn [slot_names] in G. rewrite Hb in G. exact G.
 Qed.
 
 Lemma wp_run {R} (c : cmd R) (Q : out R -> mem -> Prop) m : wp c Q m -> Q (fst (run c m)) (snd (run c m)).
